@@ -194,9 +194,22 @@ def _record_traces(ctx, b, path):
                 events.append({"op": "represent", "dist": list(w), "n": n, "r": r, "id": len(events) + 1})
                 if dict(d.distribution_dict) != before:
                     ctx.violation("represent:mutated", "get_measurements_representing_distribution modified the distribution", events[-1])
+    # the binding must bite: two CANARY records - recorded results with one field corrupted - have to be rejected by the
+    # trace specification on every run (one shot too many; a shot on an outcome of probability zero)
+    sc = dict(next(e for e in events if e["op"] == "scale" and e["r"][0] >= 0), canary=True)
+    sc["r"] = [sc["r"][0] + 1] + list(sc["r"][1:])
+    rp = dict(next(e for e in events if e["op"] == "represent" and 0 in e["dist"] and e["r"][0] >= 0), canary=True)
+    z = rp["dist"].index(0)
+    nz = next(i for i, x in enumerate(rp["r"]) if x > 0)
+    rp["r"] = list(rp["r"])
+    rp["r"][z] += 1
+    rp["r"][nz] -= 1
+    for cn in (sc, rp):
+        cn["id"] = len(events) + 1
+        events.append(cn)
     with open(path, "w") as f:
         for e in events:
-            f.write(json.dumps(e) + "\n")
+            f.write(json.dumps({k: v for k, v in e.items() if k != "canary"}) + "\n")
     return events, nscale
 
 
@@ -280,9 +293,18 @@ def run(ctx):
         from ..tlc import TLCError
 
         raise TLCError("ShotsTrace consumed %d of %d events" % (tr.distinct - 1, len(events)))
-    ctx.traces_validated += len(events)
+    ctx.traces_validated += len(events) - 2
+    rejected_ids = {rj["reject"] for rj in tr.emitted}
+    canaries = [i + 1 for i, e in enumerate(events) if e.get("canary")]
+    if not set(canaries) <= rejected_ids:
+        from ..tlc import TLCError
+
+        raise TLCError("binding self-test failed: ShotsTrace accepted a corrupted record (canaries %s, rejected %s)" % (canaries, sorted(rejected_ids)[:10]))
+    ctx.by_kind["canary records rejected by the trace specification"] = len(canaries)
     for rj in tr.emitted:
         e = events[rj["reject"] - 1]
+        if e.get("canary"):
+            continue
         ctx.count(e)
         if e["op"] == "scale":
             ctx.violation("scale:not-allowed", "scale_and_discretize(weights∝%s, total=%s) returned %s: not integers summing to the total within one of each share" % (e["w"], e["total"], e["r"]), e)
